@@ -23,13 +23,14 @@ CATALOGUES = {
         "P|p5|A+,C+,A+|1M,*,*",
         "#| comment", "H|xx:i:1",
     ], ids=["A", "B", "C", "p1", "p2", "l1", "c1", "zz"],
-        renames=[("A", "D"), ("A", "B"), ("B", "p1"), ("p1", "q"), ("l1", "l2"), ("C", "zz")]),
+        renames=[("A", "D"), ("A", "B"), ("B", "p1"), ("p1", "q"), ("l1", "l2"), ("C", "zz")],
+        tagedits=[("A", "xx:i:5"), ("B", "LN:i:7"), ("p1", "yy:Z:a b"), ("l1", "RC:i:3")]),
     "gfa1s": dict(version="gfa1", lines=[
         "S|A|*", "S|B|*", "S|C|*",
         "L|A|+|B|+|2M1D1M", "L|A|+|C|+|*", "L|B|-|A|-|1M1I2M", "L|A|+|A|-|*",
         "C|A|+|B|+|1|2M",
         "P|p1|A+,B+|2M1D1M", "P|p2|B-,A-|*",
-    ], ids=["A", "B", "p1", "zz"], renames=[("A", "D"), ("A", "B")]),
+    ], ids=["A", "B", "p1", "zz"], renames=[("A", "D"), ("A", "B")], tagedits=[("A", "xx:i:5"), ("p1", "yy:Z:a b")]),
     "gfa2": dict(version="gfa2", lines=[
         "S|a|4|ACGT", "S|b|6|*", "S|c|3|*",
         "E|e1|a+|b+|2|4$|0|2|2M", "E|e2|a+|b-|0|4$|1|5|*", "E|e3|a+|c+|1|2|1|2|*",
@@ -42,13 +43,15 @@ CATALOGUES = {
         "X|custom|1", "S|o1|3|*",
         "# gfa2 comment", "H|TS:i:10",
     ], ids=["a", "b", "c", "e1", "e4", "g1", "o1", "o2", "u1", "u3", "zz"],
-        renames=[("a", "d"), ("a", "b"), ("e1", "e9"), ("g1", "g9"), ("o1", "u1"), ("u1", "u2"), ("b", "e1")]),
+        renames=[("a", "d"), ("a", "b"), ("e1", "e9"), ("g1", "g9"), ("o1", "u1"), ("u1", "u2"), ("b", "e1")],
+        tagedits=[("a", "xx:i:5"), ("e1", "yy:Z:a b"), ("u1", "yy:i:9"), ("o1", "xx:i:2"), ("g1", "zz:Z:q")]),
     "gfa2s": dict(version="gfa2", lines=[
         "S|a|4|*", "S|b|6|*",
         "E|e1|a+|b+|2|4$|0|2|*", "E|*|a+|b+|2|4$|0|2|*", "E|e2|a+|b-|0|4$|1|5|*",
         "G|g1|a+|b-|10|*",
         "O|o1|a+ e1+ b+", "U|u1|a e1 g1", "U|u2|u1 o1",
-    ], ids=["a", "b", "e1", "g1", "o1", "u1", "zz"], renames=[("a", "d"), ("e1", "u1")]),
+    ], ids=["a", "b", "e1", "g1", "o1", "u1", "zz"], renames=[("a", "d"), ("e1", "u1")],
+        tagedits=[("a", "xx:i:5"), ("u1", "yy:i:9")]),
 }
 
 
@@ -94,6 +97,9 @@ def build_ops(cat):
     for ln in cat["lines"]:
         if ln[0] in "LCEGFOUP":
             ops.append(dict(k="disc", text=text_of(ln), id="", id2=""))
+    for ident, tag in cat.get("tagedits", []):
+        ops.append(dict(k="settag", text="H\t" + tag, id=ident, id2=""))
+        ops.append(dict(k="deltag", text="H\t" + tag, id=ident, id2=""))
     return ops
 
 
@@ -162,6 +168,15 @@ def apply_op(gfapy, gfa, op, version):
         if o is None:
             o = gfapy.Line(op["text"], version=version) if version else gfapy.Line(op["text"])
         o.disconnect()
+    elif k in ("settag", "deltag"):
+        o = find_named(gfa, op["id"])
+        if o is None or o.virtual:
+            raise gfapy.NotFoundError("no line " + op["id"])
+        n, t, v = op["text"].split("\t")[1].split(":", 2)
+        if k == "deltag":
+            o.delete(n)
+        else:
+            o.set(n, int(v) if t == "i" else v)
     elif k == "ren":
         o = find_named(gfa, op["id"])
         if o is None or o.virtual:
